@@ -114,7 +114,7 @@ Theorem C10_chan_leak_iff :
          nth_error (e_objects e) h = Some (OChannel s) /\
          msgs e h = ch_cnt s /\
          leak_at e h = (if msgs e h =? 0 then None else Some LMsgs) /\
-         (if ho_rx (get_h e h) then msgs e h = length (ho_q (get_h e h)) else ho_q (get_h e h) = []).
+         msgs e h = length (ho_q (get_h e h)) /\ (ho_rx (get_h e h) = false -> msgs e h = 0).
 Proof. exact chan_leak_iff. Qed.
 Print Assumptions C10_chan_leak_iff.
 
@@ -170,11 +170,25 @@ Theorem C10_leak_reported_is_true :
 Proof. exact leak_reported_is_true. Qed.
 Print Assumptions C10_leak_reported_is_true.
 
-(* witness (computed) of the behaviour repaired by the fix commit for mpsc: see known_findings.json *)
-Theorem C10_send_after_drop_reported :
-  snd (iteration 1000 p_send_after_drop (initial_path cfgK)) = IterPanic (PanicLeak LMsgs 0) /\
+(* a channel is reported iff messages are still queued, whether or not the receiver is alive *)
+Theorem C10_chan_leak_queue :
+  forall (fuel : nat) (p : prog) (pa : path) (e : exec),
+       run fuel (init_exec p pa) = (e, IterDone) ->
+       forall h : nat,
+       nth_error (p_decls p) h = Some DChan ->
+       leak_at e h = match ho_q (get_h e h) with
+                     | [] => None
+                     | _ :: _ => Some LMsgs
+                     end.
+Proof. exact chan_leak_queue. Qed.
+Print Assumptions C10_chan_leak_queue.
+
+(* witness (computed): after fix 4a05908 a message handed back by send() to a dropped receiver is not reported as leaked *)
+Theorem C10_send_after_drop_not_reported :
+  snd (iteration 1000 p_send_after_drop (initial_path cfgK)) = IterDone /\
        rev (e_log e_sad) = [LOp 0 0 RUnit; LOp 0 1 RDisc] /\
-       ho_rx (get_h e_sad 0) = false /\ ho_q (get_h e_sad 0) = [] /\ msgs e_sad 0 = 1.
-Proof. exact send_after_drop_reported. Qed.
-Print Assumptions C10_send_after_drop_reported.
+       ho_rx (get_h e_sad 0) = false /\
+       ho_q (get_h e_sad 0) = [] /\ msgs e_sad 0 = 0 /\ hleak p_send_after_drop e_sad 0 = None.
+Proof. exact send_after_drop_not_reported. Qed.
+Print Assumptions C10_send_after_drop_not_reported.
 
